@@ -17,6 +17,13 @@ Direct oracles on the implementation:
       deleted files (`+++ /dev/null`) should be coloured by their own name.
   B6  binary: neither a same-named file in the working directory nor a first-line
       shebang/modeline in the hunk changes the language.
+  B7  binary: a file section rendered alone and after 1-3 neighbour sections (highlighter lifetime).
+  B10 binary: names that syntect resolves by WHOLE NAME although they carry an everyday extension
+      (CMakeLists.txt, Cargo.lock, resolv.conf, Makefile.in …), extension-less names that equal an
+      extension (`rs`, `py`) and names sharing a stem, together in one run with ordinary files of
+      the same extension / stem, in both orders: the section is coloured as when it is alone, and
+      as the same hunks under another name of the same kind (same language by the rule "whole
+      name, then extension, then default" over syntect's table) in the same place.
 """
 import base64
 import os
@@ -27,6 +34,7 @@ import tempfile
 from ..core import hx, unhx, unhxs, parallel_map, sha, BUILD
 
 DRIVERS = ["drv_superimpose"]
+GENERATED = ["Superimpose", "SuperimposeLifetime"]
 
 NULL_SYN = "000000ff,ffffffff,0"
 
@@ -1636,6 +1644,263 @@ def weird_name_oracles(ctx, rep):
 
 
 
+# --------------------------------------------------------------------------- B10: names resolved by WHOLE NAME that share an extension with ordinary files
+
+# Names that syntect's table lists as whole file names although they end in an extension that ordinary
+# files carry too (each is validated against `find_syntax_by_extension` at run time: kept only where the
+# whole name is known to syntect).
+WHOLE_WITH_EXT = ["CMakeLists.txt", "CMakeCache.txt", "requirements.txt", "todo.txt", "done.txt",
+                  "Cargo.lock", "Gopkg.lock", "pdm.lock", "poetry.lock", "Pipfile.lock",
+                  "nginx.conf", "resolv.conf", "requirements.in", "Makefile.in", "makefile.in",
+                  "Makefile.am", "makefile.am", "config.ru", "mime.types"]
+# extension-less names that are whole-name entries (> 4 bytes), and dot-files
+WHOLE_EXTLESS = ["Makefile", "GNUmakefile", "Rakefile", "Gemfile", "Dockerfile", "Pipfile", "exclude",
+                 "ssh_config", "sshd_config", "fastcgi_params", ".bashrc", ".profile", ".gitconfig",
+                 ".gitignore", ".editorconfig", ".zshrc"]
+# extension-less names of at most 4 bytes that equal an extension: never looked up (default language)
+SHORT_EXTLESS = ["rs", "py", "c", "h", "mk", "rb", "js", "sh", "toml", "make", "json", "yaml", "go", "txt", "lock"]
+ORDINARY_EXTS = ["txt", "lock", "conf", "in", "am", "ru", "types", "rs", "py", "c", "h", "mk", "rb", "js", "sh",
+                 "toml", "json", "cmake", "yaml", "go", "ini", "gitignore", "make", "zzq", "TXT", "Lock", "RS"]
+ORDINARY_STEMS = ["notes", "yarn", "app", "qzxa", "readme", "NOTES", "main"]
+EXTLESS_PLAIN = ["NOTES", "READMEFIRST", "qzxab", "notes"]        # > 4 bytes, unknown to syntect: default language
+
+# Lines that the grammars involved colour differently (so that a wrong language shows).
+POLY_LINES = [
+    'set(zq_SOURCES main.c util.c)  # sources', 'add_executable(zq ${zq_SOURCES})', 'if(WIN32)  # win',
+    'message(STATUS "zq done")', 'name = "demo" # c', 'version = "1.2.3"', '[package]', '[[bin]]',
+    'checksum = "9f86d081884c7d65"', 'dependencies = { serde = "1.0", x = true }',
+    'server { listen 80; }', 'location /api { proxy_pass http://127.0.0.1:8080; } # c',
+    'nameserver 10.0.0.1', 'search example.org # c', 'options ndots:2',
+    'fn main() { let x: u32 = 42; } // c', 'def main(argv=None): return "s" # c',
+    'flask==1.0.2  # pin', '-r other.txt', 'requests>=2.0,<3',
+    '(A) 2020-01-01 call mom +family @phone', 'x 2020-01-02 done task',
+    'CC := gcc', 'all: main.o util.o', '\t$(CC) -o $@ $^ # link',
+    '{"name": "demo", "n": 42, "list": [1, 2.5, null, true]}',
+    'gem "rails", "~> 6.0" # c', 'run Rack::Builder.new { }', 'text/html html htm;', 'include mime.types;',
+    '*.o', '!keep.o # c', '[core]', '\teditor = vim', 'export PATH="$HOME/bin:$PATH" # c',
+    'if [ -f ~/.x ]; then . ~/.x; fi', '#include <stdio.h>', 'int main(void) { return 0; } /* c */',
+    'plain words only here',
+]
+
+
+def section_body_rows(outb, path):
+    """Raw rows of the section of `path` after its file header row, without the box / rule decoration rows
+    (their width follows the printed name). None if the header row is not found."""
+    raw = outb.split(b"\n")
+    dec = decode(outb)
+    idx = [i for i, r in enumerate(dec) if row_text(r).strip() in (path, "added: " + path)]
+    if not idx:
+        return None
+    keep = []
+    for i in range(idx[0] + 1, len(dec)):
+        t = row_text(dec[i])
+        if t and all(0x2500 <= ord(ch) <= 0x257f or ch == " " for ch in t):
+            continue
+        keep.append(raw[i] if i < len(raw) else b"")
+    return keep
+
+
+def name_parts(name):
+    """(file_name, extension) of a path as `std::path::Path` sees them (names without `.`/`..` components)."""
+    fn = name.rstrip("/").split("/")[-1]
+    i = fn.rfind(".")
+    return fn, ("" if i <= 0 else fn[i + 1:])
+
+
+def property_language(name, byext, default_syntax):
+    """The language the property assigns to a file name, over syntect's (trusted) table `byext`: the whole
+    name if syntect knows it (names with an extension, or longer than 4 bytes), else the extension, else
+    the default language."""
+    fn, ext = name_parts(name)
+    if ext != "" or len(fn.encode("utf-8")) > 4:
+        s = byext.get(fn) or byext.get(ext)
+        if s:
+            return s
+    return default_syntax
+
+
+def coarse_keys(name):
+    """Keys under which a cache that is coarser than the file name could file `name`: the (lowercased)
+    extension or, without one, the whole name; the stem; the first letter."""
+    fn, ext = name_parts(name)
+    stem = fn[:len(fn) - len(ext) - 1] if ext else fn
+    return {"ext": (ext or fn).lower(), "stem": stem.lower()}
+
+
+def poly_hunk(rng, start, lines):
+    body, old_n, new_n = [], 0, 0
+    for ln in lines:
+        k = rng.random()
+        if k < 0.4:
+            body.append(" " + ln); old_n += 1; new_n += 1
+        elif k < 0.7:
+            body += ["-" + ln, "+" + edit_line(rng, ln)]; old_n += 1; new_n += 1
+        elif k < 0.85:
+            body.append("-" + ln); old_n += 1
+        else:
+            body.append("+" + ln); new_n += 1
+    frag = rng.choice(["", " " + rng.choice(lines).strip()])
+    return ["@@ -%d,%d +%d,%d @@%s" % (start, old_n, start, new_n, frag)] + body
+
+
+def shared_extension_oracles(ctx, rep):
+    rng = ctx.rng
+    themes = list_themes(ctx)
+    hook = ctx.hook()
+    mdl = ctx.model("drv_superimpose") if ctx.drivers_ok else None
+    ordinary = ["%s.%s" % (s, e) for s in ORDINARY_STEMS for e in ORDINARY_EXTS]
+    cands = sorted(set(WHOLE_WITH_EXT + WHOLE_EXTLESS + SHORT_EXTLESS + EXTLESS_PLAIN + ordinary))
+    keys = sorted({k for n in cands for k in name_parts(n)} | {""})
+    byext = {}
+    for k, r in zip(keys, hook.ask(["superimpose.byext " + hx(k) for k in keys])):
+        byext[k] = None if r == "ok -" else unhxs(r.split()[1])
+    fb = unhxs(hook.ask(["superimpose.fallback " + hx("txt")])[0].split()[1])
+    lang = {n: property_language(n, byext, fb) for n in cands}
+    whole = [n for n in WHOLE_WITH_EXT + WHOLE_EXTLESS if byext.get(n)]
+    rep.notes["whole_name_entries"] = {n: lang[n] for n in whole}
+    dropped = [n for n in WHOLE_WITH_EXT + WHOLE_EXTLESS if not byext.get(n)]
+    if dropped:
+        rep.notes["whole_name_entries_unknown_to_syntect"] = dropped
+    # the rule used here (whole name, then extension, then the default) against the Lean model and the
+    # implementation's get_syntax, on every candidate name with and without a directory
+    reqs, meta = [], []
+    for n in cands:
+        for p in (n, "src/" + n):
+            ks = sorted({k for k in name_parts(p)} | {""})
+            tbl = "T" + ",".join("%s:%s" % (k.encode().hex(), byext[k].encode().hex() if byext.get(k) else "-") for k in ks)
+            reqs.append("superimpose.syntax %s %s %s %s" % (hx(p), hx("txt"), hx(fb), tbl))
+            meta.append((p, n))
+    impl = hook.ask(reqs)
+    model = mdl.ask(reqs) if mdl else [None] * len(reqs)
+    for (p, n), i, m in zip(meta, impl, model):
+        rep.count("names:rule-checked")
+        if m is not None:
+            rep.corr_case("superimpose.syntax", i == m, dict(path=p, default="txt", impl=i, model=m))
+            got = unhxs(m.split()[1]) if m.startswith("ok ") else None
+            rep.corr_case("superimpose.syntax-rule", got == lang[n], dict(path=p, model=got, oracle_rule=lang[n]))
+    # pairs of names that a cache keyed more coarsely than the file name would confuse
+    by_key = {}
+    for n in cands:
+        for kind, k in coarse_keys(n).items():
+            by_key.setdefault((kind, k), []).append(n)
+    pairs = []
+    for (kind, k), ns in sorted(by_key.items()):
+        for a in ns:
+            for b in ns:
+                if a != b and lang[a] != lang[b]:
+                    cls = "shared-extension" if kind == "ext" and name_parts(a)[1] and name_parts(b)[1] else \
+                        ("short-name-equals-extension" if kind == "ext" else "shared-stem")
+                    pairs.append((cls, a, b))
+    by_cls = {}
+    for c, a, b in pairs:
+        by_cls.setdefault(c, []).append((a, b))
+    rep.notes["confusable_name_pairs"] = {c: len(v) for c, v in by_cls.items()}
+    same_kind = {}
+    for n in cands:
+        same_kind.setdefault(lang[n], []).append(n)
+    jobs = []
+    for _ in range(ctx.n(48, 700)):
+        cls = rng.choice(["shared-extension"] * 4 + ["short-name-equals-extension", "shared-stem"])
+        if not by_cls.get(cls):
+            continue
+        pool = by_cls[cls]
+        # favour pairs with a whole-name entry (the everyday collisions: CMakeLists.txt / notes.txt …)
+        wpool = [p for p in pool if p[0] in whole or p[1] in whole]
+        target, sibling = rng.choice(wpool if wpool and rng.random() < 0.7 else pool)
+        d = rng.choice(["", "", "src/", "cfg/"])
+        tpath = d + target
+        lines = rng.sample(POLY_LINES, rng.randint(3, 6))
+        thunks, start = [], rng.randint(1, 40)
+        for _h in range(rng.randint(1, 2)):
+            thunks += poly_hunk(rng, start, rng.sample(lines, rng.randint(2, len(lines))))
+            start += 30
+        # neighbours: the sibling plus 0-2 others, in random order, all before the target
+        nnames = [sibling]
+        for _k in range(rng.randint(0, 2)):
+            c = rng.choice(cands)
+            if c != target and c not in nnames:
+                nnames.append(c)
+        rng.shuffle(nnames)
+        neigh = []
+        for nn in nnames:
+            npath = rng.choice(["", "lib/"]) + nn
+            nl = rng.sample(POLY_LINES, rng.randint(2, 4))
+            neigh += gen_file_section(rng, "plain", npath, npath) + poly_hunk(rng, rng.randint(1, 40), nl)
+        # a name of the same kind (same language by the rule) that shares neither extension nor stem
+        tk = coarse_keys(target)
+        alts = [n for n in same_kind[lang[target]] if n != target and n not in nnames
+                and coarse_keys(n)["ext"] != tk["ext"] and coarse_keys(n)["stem"] != tk["stem"]]
+        alt = rng.choice(sorted(alts)) if alts else None
+        th = rng.choice(themes["dark"])
+        tc = rng.choice(["always", "never"])
+        args = ["--syntax-theme", th, "--true-color", tc, "--width", "200"]
+        if rng.random() < 0.3:
+            args.append("-n")
+        if rng.random() < 0.5:
+            cargs = gen_config(rng, "syntax-all", tc)[0]
+            k = cargs.index("--hunk-header-style")
+            cargs[k + 1] = " ".join(w for w in cargs[k + 1].split() if w != "file")
+            args += cargs
+        mk = lambda ls: ("\n".join(ls) + "\n").encode()
+        sec = lambda p: gen_file_section(rng, "plain", p, p) + thunks
+        runs = [(args, mk(sec(tpath)), None), (args, mk(neigh + sec(tpath)), None),
+                (args, mk(sec(d + sibling)), None)]
+        if alt:
+            runs.append((args, mk(neigh + sec(d + alt)), None))
+        jobs.append(dict(cls=cls, target=target, sibling=sibling, tpath=tpath, spath=d + sibling, alt=alt, apath=(d + alt) if alt else None,
+                         neighbours=nnames, runs=runs, langs=(lang[target], lang[sibling])))
+    flat, pos = [], []
+    for j in jobs:
+        pos.append(len(flat))
+        flat += j["runs"]
+    results = parallel_map(lambda r: run_case(ctx, r[0], r[1], r[2]), flat)
+    for j, p0 in zip(jobs, pos):
+        res = results[p0:p0 + len(j["runs"])]
+        rep.count("names:%s" % j["cls"])
+        if any(r[0] != 0 for r in res):
+            rep.count("binary:nonzero-exit")
+            continue
+        # non-trivial: the two languages really colour this body differently (the sibling's name on the same body)
+        differs = section_body_rows(res[0][1], j["tpath"]) != section_body_rows(res[2][1], j["spath"])
+        rep.case(key=("b10", sha(j["runs"][1][1]), tuple(j["runs"][1][0])), nontrivial=differs,
+                 sample=dict(op="binary-shared-extension", cls=j["cls"], target=j["tpath"], languages=j["langs"],
+                             neighbours=j["neighbours"], same_kind_name=j["alt"], args=j["runs"][0][0]))
+        rep.count("names:languages-colour-differently" if differs else "names:languages-colour-alike")
+
+        def evaluate(res, sink, j=j):
+            eval_b10(res, sink, j)
+        confirm(ctx, rep, j["runs"], res, evaluate)
+
+
+def eval_b10(res, sink, j):
+    if any(r[0] != 0 for r in res):
+        return
+    a, b = section_rows(res[0][1], j["tpath"]), section_rows(res[1][1], j["tpath"])
+    if a is None or b is None:
+        sink.violation("names:section-header-missing", "the file header row of %s was not found" % j["tpath"],
+                       replay_obj("B10s", [j["runs"][0], j["runs"][1]], tpath=j["tpath"], cls=j["cls"]))
+        return
+    if a != b:
+        k = next((i for i in range(min(len(a), len(b))) if a[i] != b[i]), min(len(a), len(b)))
+        sink.violation("language:%s:section-colouring-depends-on-other-files" % j["cls"],
+                       "the section of %s (%s) is coloured differently after sections of %s than alone (%s is %s): row %d %r vs %r" % (
+                           j["tpath"], j["langs"][0], j["neighbours"], j["sibling"], j["langs"][1], k,
+                           a[k][:160].decode("utf-8", "replace") if k < len(a) else None,
+                           b[k][:160].decode("utf-8", "replace") if k < len(b) else None),
+                       replay_obj("B10s", [j["runs"][0], j["runs"][1]], tpath=j["tpath"], cls=j["cls"]))
+    if j["alt"] and len(res) > 3:
+        x, y = section_body_rows(res[1][1], j["tpath"]), section_body_rows(res[3][1], j["apath"])
+        if x is not None and y is not None and x != y:
+            k = next((i for i in range(min(len(x), len(y))) if x[i] != y[i]), min(len(x), len(y)))
+            sink.violation("language:%s:rename-same-kind-changes-colouring" % j["cls"],
+                           "renaming %s to %s (both %s by name) after sections of %s changed the colouring of its hunks: row %d %r vs %r" % (
+                               j["target"], j["alt"], j["langs"][0], j["neighbours"], k,
+                               x[k][:160].decode("utf-8", "replace") if k < len(x) else None,
+                               y[k][:160].decode("utf-8", "replace") if k < len(y) else None),
+                           replay_obj("B10r", [j["runs"][1], j["runs"][3]], tpath=j["tpath"], apath=j["apath"], cls=j["cls"]))
+
+
+
 def run(ctx, rep):
     rep.rule = ("hook level: random (syntect sections, diff sections) over an alphabet with non-ASCII, zero-width, "
                 "tab and newline characters, random partitions incl. empty sections, trailing-newline variants, "
@@ -1646,7 +1911,12 @@ def run(ctx, rep):
                 "class (+ none); non-trivial = the themes really gave different foregrounds. Section independence: a "
                 "target file section with hunk-header fragments rendered alone and after 1-3 neighbour sections "
                 "(modify in any of 14 languages, ending inside an open comment/string, delete, add, rename with and "
-                "without hunks, mode-only, binary); non-trivial = a neighbour of another language. Distinct by "
+                "without hunks, mode-only, binary); non-trivial = a neighbour of another language. Names a cache "
+                "coarser than the file name would confuse (shared extension with a whole-name entry of syntect's "
+                "table such as CMakeLists.txt / Cargo.lock / resolv.conf, extension-less names equal to an "
+                "extension, shared stems; pairs computed from syntect's table, both orders, 1-3 neighbours, "
+                "polyglot hunk lines): section alone vs after the others, and vs a same-kind name in the same "
+                "place; non-trivial = the two languages colour the hunks differently. Distinct by "
                 "request / (diff hash, args).")
     rep.extra_trusted += [
         "syntect: highlight_line returns sections that partition the line (checked on the sampled lines, not proved)",
@@ -1660,6 +1930,7 @@ def run(ctx, rep):
     lifetime_oracles(ctx, rep)
     sbs_oracles(ctx, rep)
     weird_name_oracles(ctx, rep)
+    shared_extension_oracles(ctx, rep)
 
 
 def replay(ctx, rep, obj):
@@ -1702,6 +1973,16 @@ def replay(ctx, rep, obj):
             bo = [c for c in bo if "".join(ch for ch, _ in c) == case["fragment"].strip()]
             if fr and bo and fr[0] != bo[0]:
                 rep.violation("lifetime:fragment-not-coloured-as-body", "fragment not coloured as in a hunk body", case)
+        elif oracle == "B10s":
+            a, b = section_rows(outs[0][1], case["tpath"]), section_rows(outs[1][1], case["tpath"])
+            if a != b:
+                rep.violation("language:%s:section-colouring-depends-on-other-files" % case.get("cls", "shared-extension"),
+                              "the section of %s is coloured differently after other sections than alone" % case["tpath"], case)
+        elif oracle == "B10r":
+            a, b = section_body_rows(outs[0][1], case["tpath"]), section_body_rows(outs[1][1], case["apath"])
+            if a != b:
+                rep.violation("language:%s:rename-same-kind-changes-colouring" % case.get("cls", "shared-extension"),
+                              "renaming %s to %s (same kind) changed the colouring of its hunks" % (case["tpath"], case["apath"]), case)
         elif oracle == "B6p":
             bgs = [tuple(b) for b in case.get("bgs", [])]
             fgs = {it[2] for row in decode(outs[0][1]) for it in row if it[0] == "c" and it[3] in bgs}
